@@ -1,4 +1,4 @@
-\* repaired; liveness under fairness beside floods
+\* repaired; liveness under fairness beside a hijacked number 0
 CONSTANTS Streams <- MCStreams Choices <- ChL2 BadBatches <- MCBad InitHeight = 1 MaxHeight = 2
   InputCap = 4 OutCap = 1 MaxDup = 1 MaxExtra = 0 MaxGot = 2
   FixNilState = TRUE FixBlock = TRUE FixReFin = TRUE SeqWindow = 8 BufBound = 8 Mut = "none"
